@@ -278,6 +278,15 @@ func (f *FileSnapshotStore) getSnapshots() ([]*fileSnapshotMeta, error) {
 			continue
 		}
 
+		// The metadata must be that of this directory: Open and reaping address
+		// the snapshot by meta.ID, and an empty or foreign ID (damaged
+		// metadata) would make them act on another path - with an empty ID,
+		// on the whole snapshot directory.
+		if meta.ID != dirName {
+			f.logger.Warn("snapshot metadata does not belong to its directory", "name", dirName, "id", meta.ID)
+			continue
+		}
+
 		// Append, but only return up to the retain count
 		snapMeta = append(snapMeta, meta)
 	}
